@@ -392,8 +392,59 @@ def check_braces(acc, case):
                  {'kind': 'braces', 'case': case})
 
 
+# ---- values inside a light list ---------------------------------------------------------
+LIST_POP = [{'label': 'A', 'group': 'G', 'location': 'L'},
+            {'label': 'B', 'group': 'G', 'location': 'L'},
+            {'label': 'C', 'group': 'H', 'location': 'L'}]
+LIST_PRELUDE = ('assign a "A" assign b "B" assign c "C" assign g "G" '
+                'define q_pick with q_n begin if {q_n == 1} return "A" '
+                'if {q_n == 2} return "B" return "C" end ')
+LIST_CASES = [      # (plain, written with braces / calls, expected visits)
+    ('repeat in a and b and c as q_l print q_l',
+     'repeat in {a} and {b} and {c} as q_l print q_l', ['A', 'B', 'C']),
+    ('repeat in c and a as q_l print q_l',
+     'repeat in {c} and a as q_l print q_l', ['C', 'A']),
+    ('repeat in group g and c as q_l print q_l',
+     'repeat in group {g} and {c} as q_l print q_l', ['A', 'B', 'C']),
+    ('repeat in c and group g as q_l print q_l',
+     'repeat in {c} and group {g} as q_l print q_l', ['C', 'A', 'B']),
+    ('repeat in a and b and c as q_l print q_l',
+     'repeat in [q_pick 1] and [q_pick 2] and [q_pick 3] as q_l print q_l',
+     ['A', 'B', 'C']),
+    ('repeat in b and a as q_l with q_i from 1 to 2 begin print q_l '
+     'print q_i end',
+     'repeat in {b} and {a} as q_l with q_i from 1 to 2 begin print q_l '
+     'print q_i end', ['B', 1, 'A', 2]),
+]
+
+
+def check_list_values(acc):
+    from verif.harness import World
+    world = World(LIST_POP)
+    for plain, written, expected in LIST_CASES:
+        outs = []
+        for text in (plain, written):
+            del world.trace[:]
+            result = world.run(LIST_PRELUDE + text, budget=20000)
+            outs.append([e[1] for e in result.trace if e[0] == 'out']
+                        if result.compiled and not result.aborted else
+                        'did not run: {} {}'.format(result.errors.strip(),
+                                                    result.aborted))
+        acc.case(key=written, nontrivial=True, labels=['list-values'],
+                 sample={'plain': plain, 'braced_or_called': written}
+                 if len(acc.samples) < 2 else None)
+        case = {'kind': 'list-values'}
+        if outs[0] != expected:
+            acc.fail('list-values:plain', '{} visited {} expected {}'.format(
+                plain, outs[0], expected), case)
+        elif outs[1] != expected:
+            acc.fail('list-values:' + ('call' if '[' in written else 'braces'),
+                     '{} visited {}, the same list written plainly visits {}'
+                     .format(written, outs[1], expected), case)
+
+
 def plan(tier, seed_value):
-    specs = []
+    specs = [{'kind': 'list-values'}]
     names = fixed_identifiers()
     chunk = (len(names) + 15) // 16
     factor = 20 if tier == 'thorough' else 1
@@ -415,6 +466,9 @@ def run_shard(spec):
     acc = Acc()
     kind = spec['kind']
     avoid = runner.avoid_flags(ID)
+    if kind == 'list-values':
+        check_list_values(acc)
+        return acc
     if kind == 'identifiers':
         for name in fixed_identifiers()[spec['start']:spec['stop']]:
             check_identifier(acc, name)
@@ -444,7 +498,9 @@ def run_shard(spec):
 def replay(case):
     acc = Acc()
     kind = case['kind']
-    if kind == 'identifier':
+    if kind == 'list-values':
+        check_list_values(acc)
+    elif kind == 'identifier':
         check_identifier(acc, case['name'])
     elif kind == 'string':
         check_string(acc, case['text'])
